@@ -2,6 +2,7 @@
 //  slots : 2-3 threads x 1-2 operations on one 4-slot bucket of the real TranspositionTable; ALL sequentially consistent
 //          interleavings of the atomic loads/stores (fiber scheduler, state caching, no preemption bound)
 //  weak  : relaxed-memory over-approximation: every per-word mixture of values ever stored by a writers-only program, real probe on each
+//  history: every sequential insert/probe/generation/clear/setBusy history up to a depth on one bucket; every slot must decode to a stored record
 //  ply   : setScore(s,p)/getScore(p') for every s, p, p'
 //  index : getIndex stays inside the used part for every configurable size x key prefixes (arithmetic sweep), and for really
 //          allocated tables with a resident on-demand tablebase (real reSize + updateTB): index range + tablebase bytes untouched
@@ -229,6 +230,85 @@ static void weakProduct(int nThreads, int opsPerThread, int initKind, long maxCo
     }
 }
 
+
+// ---------------------------------------------------------------- sequential histories on one bucket
+// "arbitrary insert/probe/clear/generation histories": explicit-state search over operation sequences on one bucket of the real table.
+// The state of a bucket is exactly its 8 words + the table generation (+ the set of records handed to insert so far, which the oracle
+// needs), so states are restored by writing those words back. Oracle after EVERY operation: each non-empty slot decodes (key word xor
+// data word) to a key and a record that were stored together, the real probe of that decoded key returns that record, and every probe
+// of the alphabet returns a miss or a record stored for its key. Without concurrency there are no torn slots, so any slot that decodes to
+// something never stored is a blend that a probe of the decoded key would return.
+static void histories(int maxDepth) {
+    const U64 K[3] = {0x1234000000100040ULL, 0x1234000000200040ULL, 0x1234000000300040ULL};
+    TT tt(512);
+    size_t idx = tt.getIndex(K[0]);
+    std::vector<Rec> recs;
+    int recNo = 0;
+    auto mkRec = [&](int ki) { recNo++; return Rec{K[ki], 100 + recNo * 7, 10 * recNo + ki, 3 + recNo % 5, 1 + recNo % 3, -50 + recNo}; };
+    recs.push_back(mkRec(0)); recs.push_back(mkRec(1)); recs.push_back(mkRec(2)); recs.push_back(mkRec(0));
+    recs.push_back(Rec{K[0], 0, 77, 9, TType::T_EXACT, 5});                                  // empty move: keeps the stored move
+    recs.push_back(Rec{K[1], 155, 33, 5, TType::T_LE, SearchConst::UNKNOWN_SCORE});          // no static evaluation
+    recs.push_back(Rec{K[0], 121, 11, 1, recs[0].type, 9});                                  // shallower, same type as rec 0 (may be refused)
+    recs.push_back(Rec{K[1], 131, SearchConst::MATE0 - 12, 6, TType::T_GE, 3});              // mate score
+    for (int i = 0; i < 4; i++) recs.push_back(Rec{0x1234000000000040ULL + ((U64)(i + 8) << 20), 900 + i, 500 + i, 2 + i, TType::T_GE, i});   // four fillers: bucket pressure
+    const int nRec = (int)recs.size();
+    // operations: 0..nRec-1 insert, then probe K0..K2, then G (next generation), C (clear), B (setBusy on K0 if present)
+    const int opProbe = nRec, opGen = nRec + 3, opClear = nRec + 4, opBusy = nRec + 5, nOps = nRec + 6;
+    struct State { U64 w[8]; int gen; unsigned mask; };
+    auto install = [&](const State& st) { for (int i = 0; i < 4; i++) { tt.table[idx + i].key.v.store(st.w[2 * i]); tt.table[idx + i].data.v.store(st.w[2 * i + 1]); } tt.generation = (U8)st.gen; };
+    auto snapshot = [&](unsigned mask) { State st; for (int i = 0; i < 4; i++) { st.w[2 * i] = tt.table[idx + i].key.v.load(); st.w[2 * i + 1] = tt.table[idx + i].data.v.load(); } st.gen = tt.generation; st.mask = mask; return st; };
+    auto keyOf = [&](const State& st) { std::string k((const char*)st.w, 64); k += (char)st.gen; k.append((const char*)&st.mask, 4); return k; };
+    auto opName = [&](int o) { return o < nRec ? "I" + std::to_string(o) : o < opGen ? "P" + std::to_string(o - opProbe) : o == opGen ? std::string("G") : o == opClear ? std::string("C") : std::string("B"); };
+    tt.clear();
+    std::vector<std::pair<State, std::string>> frontier{{snapshot(0), ""}}, next;
+    std::set<std::string> seen{keyOf(frontier[0].first)};
+    unsigned long long expandId = 0;
+    for (int depth = 1; depth <= maxDepth; depth++) {
+        next.clear();
+        for (auto& fr : frontier) {
+            // the first two levels are expanded by every worker (shared prefix), deeper states are dealt round-robin
+            if (depth > 2 && !W->mine(expandId++)) continue;
+            for (int o = 0; o < nOps; o++) {
+                install(fr.first);
+                unsigned mask = fr.first.mask;
+                std::string hist = fr.second + (fr.second.empty() ? "" : " ") + opName(o);
+                std::vector<Rec> all; for (int r = 0; r < nRec; r++) if (mask & (1u << r)) all.push_back(recs[r]);
+                TT::TTEntry pres; bool probed = false; U64 pkey = 0;
+                if (o < nRec) { const Rec& r = recs[o]; Move m; m.setFromCompressed((U16)r.move); m.setScore(r.score); tt.insert(r.key, m, r.type, 0, r.depth, r.eval); mask |= 1u << o; all.push_back(r); }
+                else if (o < opGen) { pkey = K[o - opProbe]; tt.probe(pkey, pres); probed = true; }
+                else if (o == opGen) tt.nextGeneration();
+                else if (o == opClear) { tt.clear(); }
+                else { TT::TTEntry e; tt.probe(K[0], e); if (e.getType() == TType::T_EMPTY) continue; tt.setBusy(e, 0); }
+                R.count("transitions");
+                std::string rep = "{\"kind\":\"input\",\"history\":\"" + hist + "\"}";
+                auto describe = [&](const TT::TTEntry& e) { Move m; e.getMove(m); char b[160]; snprintf(b, sizeof b, "key %llx m%d s%d d%d t%d e%d gen%d", (unsigned long long)e.getKey(), m.getCompressedMove(), e.getScore(0), e.getDepth(), e.getType(), e.getEvalScore(), e.getGeneration()); return std::string(b); };
+                auto stored = [&](const TT::TTEntry& e, U64 key) { for (auto& r : all) if (r.key == key && recMatches(e, r, all)) return true; return false; };
+                if (probed) { if (pres.getType() != TType::T_EMPTY) { R.count("probe_hits"); if (!stored(pres, pkey)) R.violation("probe-returned-record-never-stored:history", "history [" + hist + "] probe returns " + describe(pres), rep); } else R.count("probe_misses"); }
+                State after = snapshot(mask);
+                for (int i = 0; i < 4; i++) {
+                    if (after.w[2 * i] == 0 && after.w[2 * i + 1] == 0) continue;
+                    TT::TTEntry e; e.load(tt.table[idx + i]);
+                    if (e.getType() == TType::T_EMPTY) continue;
+                    R.count("slots_decoded");
+                    if (!stored(e, e.getKey())) { R.violation("slot-decodes-to-record-never-stored", "history [" + hist + "] slot " + std::to_string(i) + " holds " + describe(e), rep); continue; }
+                    // what the slot decodes to is what a probe of that key gets: run the real probe on a copy of the state
+                    TT::TTEntry pe; tt.probe(e.getKey(), pe);
+                    if (pe.getType() != TType::T_EMPTY && !stored(pe, e.getKey())) R.violation("probe-returned-record-never-stored:history", "history [" + hist + "] probe of the key in slot " + std::to_string(i) + " returns " + describe(pe), rep);
+                    install(after);   // the probe may have refreshed a generation
+                }
+                if (o == opClear) for (int i = 0; i < 8; i++) if (after.w[i]) R.violation("clear-leaves-data", "history [" + hist + "]", rep);
+                std::string k = keyOf(after);
+                if (seen.insert(k).second) { R.count("states"); if (mask) R.count("nontrivial"); if (depth < maxDepth) next.push_back({after, hist}); }
+            }
+            if ((expandId & 0x3ff) == 0 && W->dl.hit()) { R.exhaustive = false; return; }
+        }
+        frontier.swap(next);
+        R.maxOf("max_depth", depth);
+        R.outcome("depth" + std::to_string(depth) + ":frontier" + std::to_string(frontier.size() / 100));
+        if (frontier.empty()) break;
+    }
+}
+
 // ---------------------------------------------------------------- ply shift
 static void plyShift() {
     unsigned long long id = 0;
@@ -364,6 +444,7 @@ int main(int argc, char** argv) {
     if (w.args.has("replay")) { fprintf(stderr, "replay: re-run the part; programs and schedules are deterministic\n"); w.finish(R); return 0; }
     if (part == "slots") slots((int)w.args.getInt("threads", 2), (int)w.args.getInt("ops", 2), (int)w.args.getInt("init", 0), w.args.getInt("maxsched", 0));
     else if (part == "weak") weakProduct((int)w.args.getInt("threads", 2), (int)w.args.getInt("ops", 2), (int)w.args.getInt("init", 0), w.args.getInt("maxcombos", 4000000));
+    else if (part == "history") histories((int)w.args.getInt("depth", 5));
     else if (part == "ply") { plyShift(); busyKeepsRecord(); }
     else if (part == "index") indexSweep(thorough);
     else if (part == "real") {
